@@ -31,11 +31,14 @@ type ScenarioCfg struct {
 	MaxPools       int
 	PerPoolCatalog bool
 	MaxDaemons     int
-	MaxSeedPods    int  // pods used to grow the initial managed nodes through the real pipeline
-	Unmanaged      bool // may add a hand-built unmanaged node
-	Stages         []world.Stage
-	Options        test.OptionsFields
-	Weights        bool
+	// SelectiveDaemons: some daemonsets select on instance-level / well-known labels (an instance type name, a zone, arch,
+	// a well-known label no instance type defines) and request a sizeable amount, so that which nodes they run on matters
+	SelectiveDaemons bool
+	MaxSeedPods      int  // pods used to grow the initial managed nodes through the real pipeline
+	Unmanaged        bool // may add a hand-built unmanaged node
+	Stages           []world.Stage
+	Options          test.OptionsFields
+	Weights          bool
 }
 
 func DefaultScenarioCfg() ScenarioCfg {
@@ -163,6 +166,27 @@ func Build(rng *rand.Rand, cfg ScenarioCfg) *Scenario {
 		ds := gen.DaemonSet(fmt.Sprintf("ds-%d", i), []int64{50, 100, 200}[rng.Intn(3)], []int64{32, 64, 128}[rng.Intn(3)], opts...)
 		e.Apply(ds)
 		s.Daemons = append(s.Daemons, ds)
+	}
+	if cfg.SelectiveDaemons && rng.Intn(2) == 0 {
+		var opt gen.PodOpt
+		what := ""
+		switch rng.Intn(4) {
+		case 0:
+			// a well-known label that no instance type of the catalog defines (a device plugin for other hardware)
+			opt, what = gen.WithNodeSelector(corev1.LabelWindowsBuild, "10.0.17763"), "windows-build (defined nowhere)"
+		case 1:
+			it := shared[rng.Intn(len(shared))]
+			opt, what = gen.WithNodeSelector(corev1.LabelInstanceTypeStable, it.Name), "instance type "+it.Name
+		case 2:
+			z := gen.Zones[rng.Intn(len(gen.Zones))]
+			opt, what = gen.WithRequiredTerms([]corev1.NodeSelectorRequirement{gen.NSR(corev1.LabelTopologyZone, corev1.NodeSelectorOpIn, z)}), "zone "+z
+		default:
+			opt, what = gen.WithRequiredTerms([]corev1.NodeSelectorRequirement{gen.NSR(corev1.LabelArchStable, corev1.NodeSelectorOpIn, "arm64")}), "arch arm64"
+		}
+		ds := gen.DaemonSet("ds-selective", []int64{300, 500, 1000}[rng.Intn(3)], []int64{64, 256, 512}[rng.Intn(3)], opt, gen.WithToleration(corev1.Toleration{Operator: corev1.TolerationOpExists}))
+		e.Apply(ds)
+		s.Daemons = append(s.Daemons, ds)
+		s.Desc["selectiveDaemonSet"] = what
 	}
 	s.describe(cfg)
 	return s
